@@ -80,3 +80,21 @@ Theorem C01_operand_shapes : forall c, c_scope c = [] -> forall e, wfr e -> fora
   exists ts, ptoks ps = Some ts /\ Shape w ts (trans (fun _ => false) (mode_eqb (c_mode c) ModeJoin) e).
 Proof. exact wx_reads_empty. Qed.
 Print Assumptions C01_operand_shapes.
+
+(** ** the printed expression, byte level *)
+From PQL Require Import Proofs.SqlGlue Proofs.SqlGlueWriter Proofs.SqlGlueProg.
+
+(** For every expression the parser can build whose number literals and pass-through function names
+    are spelled as the scanner spells them ([lexok]; holds of every scanned source), in any scope
+    whose bound values were themselves printed this way, the pieces printed are glue-safe - no
+    comment opener, two-character operator, doubled quote or fused word/number forms across or
+    inside them - begin with a character that can follow any operator or keyword (for an operand:
+    not a sign) and end with one after which any operator, comma, bracket or keyword may follow.
+    This is what makes the byte-level reading of every larger text (C05_compiled_bytes_lex) follow
+    from the token-level one (C01_printed_expression_rereads). *)
+Theorem C01_printed_expression_bytes : forall c, scope_glued (c_scope c) -> forall e, wfr e -> lexok e ->
+  forall w ps, wx c w e = Ok ps ->
+  pieces_glue ps None = true /\
+  starts_in (match w with WOperand => is_start_op | _ => is_start end) (render ps) /\ ends_in is_end (render ps).
+Proof. exact wx_glue. Qed.
+Print Assumptions C01_printed_expression_bytes.
